@@ -156,6 +156,32 @@ def run_case(kind, p):
     # number of matches belong to the fast match)
     cfg = p.get("matcher") or {}
     M = grm.Matcher(**cfg)
+    if kind == "degenerate":
+        # positions that all lie on one straight line, or all coincide (indices of rank 3, positive weights): the least-squares
+        # problem is as well posed as ever -- its optimum just happens to have parallel (or zero) lattice vectors, and that
+        # optimum is what the fit returns, with all points selected
+        ex = exact_wls(idx, pts, w)
+        exu = exact_wls(idx, pts, np.ones(len(w)))
+        tol = 1e-7 * max(1.0, np.abs(pts).max())
+        try:
+            m = M.affinematch(centers=pts, indices=idx, refineds=pts, peak_elevations=w, peak_values=np.ones(len(w)))
+            if np.isnan(np.concatenate([m.zero, m.a, m.b])).any():
+                msgs.append(f"{p['what']}: affinematch returned the invalid match for indices of rank 3 and positive weights")
+            else:
+                if not m.selector.all():
+                    msgs.append(f"{p['what']}: affinematch does not select all points")
+                if np.abs(np.array([m.zero, m.a, m.b]) - ex).max() > tol:
+                    msgs.append(f"{p['what']}: fit {np.array([m.zero, m.a, m.b]).tolist()} is not the weighted least-squares optimum {ex.tolist()}")
+                diff = np.linalg.norm(pts - (m.zero + idx @ np.array([m.a, m.b])), axis=1)
+                if abs(m.error - (diff * w).sum() / w.sum()) > 1e-9 * max(1.0, m.error):
+                    msgs.append(f"{p['what']}: error is not the elevation-weighted mean residual")
+            g = grm.Match(grm.CorrelationResult(pts, pts, np.ones(len(w)), w), selector=None, zero=None, a=None, b=None, indices=idx)
+            for nm, o, want in (("weighted_optimize", g.weighted_optimize(), ex), ("optimize", g.optimize(), exu)):
+                if np.abs(np.array([o.zero, o.a, o.b]) - want).max() > tol:
+                    msgs.append(f"{p['what']}: {nm}() = {np.array([o.zero, o.a, o.b]).tolist()} is not the optimum {want.tolist()}")
+        except Exception as e:      # noqa: BLE001
+            msgs.append(f"{p['what']}: raised {type(e).__name__}: {e}")
+        return msgs
     if p.get("int_pts"):
         # positions kept as integer pixel positions (integer dtype) by the caller; the indices may be fractional
         pts = np.round(pts)
@@ -306,3 +332,19 @@ def search(ctx, boost=1, focus=()):
                   "seed": int(rng.integers(1 << 30)), "round_centers": k % 3 == 2})
         ctx.oracle_case("fit", p, run_case("fit", p), nontrivial=(k % 3 != 0 and k % 5 != 0))
     ctx.count("oracle_fit", n)
+    for k in range((40 if ctx.tier == "thorough" else 12) * boost):
+        p = gen(rng, 2 * k + 1 if k % 2 else 2 * k)
+        n_ = len(p["idx"])
+        p["w"] = rng.uniform(0.05, 20, n_)
+        p0 = rng.uniform(-50, 50, 2)
+        if k % 3 == 2:
+            p["pts"], p["what"] = np.tile(p0, (n_, 1)), "all positions identical"
+        else:
+            ang = rng.uniform(0, np.pi)
+            d = np.array([np.sin(ang), np.cos(ang)]) if k % 3 == 0 else np.array([[1.0, 0.0], [0.0, 1.0], [1.0, 1.0]][(k // 3) % 3])
+            # lattice + residuals, projected onto a line: every position on the line through p0 along d
+            along = (np.asarray(p["pts"]) - p0) @ d
+            p["pts"], p["what"] = p0 + np.outer(along, d), "all positions on one straight line"
+        p["seed"] = int(rng.integers(1 << 30))
+        ctx.oracle_case("degenerate", p, run_case("degenerate", p), nontrivial=True)
+        ctx.count("oracle_degenerate_positions")
